@@ -14,6 +14,10 @@ CLAIMED = {
             "C11_mask_exact proves the modelled algorithm (as repaired by two fix: commits) equal to the declarative non-dominated/first-duplicate mask for all inputs; "
             "the real fast_pareto_mask and makepareto_numpy are diffed against the vm_compute-evaluated model and against an O(n^2) oracle on generated and exhaustive small matrices.",
             "Coq kernel; float order abstracted by ranks; float32 sort key abstracted as any dominance-monotone key; *_per_prime_factor goals oracle-only; numba/numpy runtime"),
+    "C15": ("Coq proof (round-trip theorem for every list of sub-tables and id multiset, dict-overwrite invariant, descending walk) + differential correspondence on real PmappingGroups",
+            "C15_roundtrip: decompress(build Ts) ids returns exactly the payload of row ids[k] of concat Ts for all Ts (empty sub-tables anywhere) and all id lists; "
+            "the real compress_einsum2pmappings/decompress_pmappings are run on generated tables and every non-joining column of every result row is compared with its source row and with the model.",
+            "Coq kernel; one payload per row in the model; pandas merge/concat semantics covered only by the correspondence"),
 }
 
 PENDING_REASON = "check not built yet in this round (planned, see DESIGN.md section 6); not claimed until its proof and correspondence exist"
